@@ -1,0 +1,21 @@
+//go:build verif
+
+package preprocessor
+
+// Contracts for govc (see /verif/DESIGN.md). Comment-only file: it adds no code.
+
+// preprocess: the stage function, treated as opaque by the worker-level contracts (it may
+// change any program state; ghost/atomic state only through functions named in `noreach`).
+//@ func preprocess
+//@   opaque
+//@   modifies models.Item::*, models.URL::*
+
+// Worker gauge discipline (C17): the worker contributes +1 to the PreprocessorRoutines gauge
+// while it is alive and its net contribution is 0 once it has returned, on every exit path.
+//@ func (*preprocessor).worker
+//@   property C17
+//@   mode math
+//@   attr noreach stats.PreprocessorRoutinesIncr,stats.PreprocessorRoutinesDecr
+//@   requires stats.globalStats != nil && stats.globalStats.PreprocessorRoutines != nil
+//@   loop for invariant [gauge-live] @C17 adds(stats.globalStats.PreprocessorRoutines.count) == old(adds(stats.globalStats.PreprocessorRoutines.count)) + 1 && stats.globalStats != nil && stats.globalStats.PreprocessorRoutines != nil // C17: worker gauges equal the number of live workers
+//@   ensures [gauge-balanced] @C17 adds(stats.globalStats.PreprocessorRoutines.count) == old(adds(stats.globalStats.PreprocessorRoutines.count)) // C17: zero after stop
